@@ -63,7 +63,7 @@ Lemma class_covers_bash p bare raw tgt :
   fd_wf p = true -> In bare (bash_dup_op :: bash_write_ops) ->
   fst (redirect_file raw tgt) = false ->
   bash_writes_bare bare (snd (redirect_file raw tgt)) = true ->
-  redirect_check (fd_text p ++ bare) raw tgt = Some (snd (redirect_file raw tgt)) \/
+  redirect_check (fd_text p ++ bare) raw tgt = Some (lookup_name raw (snd (redirect_file raw tgt))) \/
   In (snd (redirect_file raw tgt)) nonfile_sinks.
 Proof.
   intros Hw Hin Hdup Hbw. destruct tables_cover_bash as [T1 [T2 [T3 T4]]].
